@@ -404,7 +404,7 @@ U.fn('parser.rs', 'ParserBase::error',
      requires=['old(self).inv_s(false) || old(self).inv_s(true)', C('msg_text(message).len() > 0', 'C02', name='parser error messages are non-empty')],
      ensures=['final(self).errs().len() == old(self).errs().len() + 1', 'final(self).after_err()', 'final(self).same_but_errors(old(self))',
               C('final(self).errs_ok()', 'C02 C17', name='recorded error is well-formed'),
-              'forall|s: bool| old(self).inv_s(s) ==> final(self).inv_s(s)', 'forall|s: bool| old(self).inv_t(s) ==> final(self).inv_t(s)',
+              C('forall|s: bool| old(self).inv_s(s) ==> final(self).inv_s(s)', 'C02'), C('forall|s: bool| old(self).inv_t(s) ==> final(self).inv_t(s)', 'C01'),
               'final(self).fuel() == old(self).fuel()', 'final(self).bv() == old(self).bv()', 'final(self).cur() == old(self).cur()', 'final(self).ts() == old(self).ts()',
               'final(self).srcv() == old(self).srcv()', 'final(self).bnd() == old(self).bnd()'],
      prologue='proof { self.token_stream.lemma_len(); ax_usize_to_text_size(self.current_range.start); ax_usize_to_text_size(self.current_range.end); }')
